@@ -396,4 +396,41 @@ def guardInterval (c : Cfg) (u : U) (g : String) : Bool :=
   else if g = "not_will_terminate" then !willTerminate c u
   else false
 
+/-! ## `PausableSleep` (time/pausable_sleep.rs) itself: `Timer` plus the remembered duration -/
+
+/-- time in milliseconds; `remaining` = deadline − now while running (0 once the deadline has passed), the saved remaining
+    time while paused; `duration` = the last duration given to `pausable_sleep` / `reset` -/
+structure PSleep where
+  remaining : Nat
+  paused : Bool := false
+  duration : Nat
+  deriving DecidableEq, Repr
+
+def PSleep.new (d : Nat) : PSleep := { remaining := d, duration := d }
+def PSleep.advance (s : PSleep) (d : Nat) : PSleep := if s.paused then s else { s with remaining := s.remaining - d }
+/-- `none`: the "illegal state transition" panic -/
+def PSleep.pause (s : PSleep) : Option PSleep := if s.paused then none else some { s with paused := true }
+def PSleep.resume (s : PSleep) : Option PSleep := if s.paused then some { s with paused := false } else none
+def PSleep.reset (s : PSleep) (d : Nat) : PSleep := { s with remaining := d, duration := d }
+def PSleep.resetLast (s : PSleep) : PSleep := s.reset s.duration
+def PSleep.fired (s : PSleep) : Bool := !s.paused && s.remaining == 0
+def PSleep.toTimer (s : PSleep) : Timer := { remaining := s.remaining, paused := s.paused }
+
+inductive SleepOp where
+  | advance (d : Nat) | pause | resume | reset (d : Nat) | resetLast
+  deriving DecidableEq, Repr
+
+def PSleep.apply (s : PSleep) : SleepOp → Option PSleep
+  | .advance d => some (s.advance d)
+  | .pause => s.pause
+  | .resume => s.resume
+  | .reset d => some (s.reset d)
+  | .resetLast => some s.resetLast
+
+def PSleep.run (s : PSleep) : List SleepOp → Option PSleep
+  | [] => some s
+  | o :: os => match s.apply o with
+    | none => none
+    | some s' => s'.run os
+
 end NextestModel.Unit
